@@ -638,6 +638,14 @@ func (s *Store) Open() (retErr error) {
 		if !fsutil.PathExists(s.cleanSnapshotPath) {
 			return nil
 		}
+		if fsutil.PathExists(s.peersPath) {
+			// A node recovery is about to take place. Recovery builds a new snapshot
+			// from the newest snapshot plus every log entry after it, and then discards
+			// the log, so the existing SQLite file -- which only reflects the newest
+			// snapshot -- must not be reused. Restore from the recovery snapshot instead.
+			s.logger.Printf("node recovery requested, performing full restore")
+			return nil
+		}
 		fp := &FileFingerprint{}
 		if err := fp.ReadFromFile(s.cleanSnapshotPath); err != nil {
 			s.logger.Printf("failed to read clean snapshot (%s), performing full restore", err)
